@@ -14,7 +14,7 @@ from ..model import src
 from ..report import Report, key_of
 from ..types import Ctx
 from ..terms import dag_nodes
-from .common import TRUSTED_BASE, cfg_nodes_for, inl, normal_succ, owner_of, where
+from .common import TRUSTED_BASE, cfg_nodes_for, inl, normal_succ, owner_of, where, src_resolved
 
 
 def run(A, R: Report, thorough: bool):
@@ -180,7 +180,7 @@ def run(A, R: Report, thorough: bool):
         R.check(not problems, 'R18.4', 'Task._init_run_info', key_of('record', sorted(problems)), 'all record fields present', f'run-info record lacks / filters: {sorted(problems)}', where=where(finit))
     fsave = task.lookup('save_to_run_info')
     R.require(fsave is not None, 'anchor: Task.save_to_run_info missing')
-    appends = [n for n in A.typer.own_nodes(fsave) if isinstance(n, ast.Call) and isinstance(n.func, ast.Attribute) and n.func.attr == 'append' and "_run_info['log']" in src(n.func.value)]
+    appends = [n for n in A.typer.own_nodes(fsave) if isinstance(n, ast.Call) and isinstance(n.func, ast.Attribute) and n.func.attr == 'append' and "_run_info['log']" in src_resolved(A, fsave, n.func.value)]
     R.check(bool(appends), 'R18.4', 'Task.save_to_run_info', key_of('append'), 'records appended in order', 'save_to_run_info does not append to the run-info log', where=where(fsave))
 
 
@@ -213,3 +213,23 @@ def run(A, R: Report, thorough: bool):
     for m in ('run_info', 'log'):
         fm = task.lookup(m)
         check_stateless(A, R, 'R18.5', fm.short, [Ctx(fm, ('inst', task))], 'run records must be read from storage, not from the task object', at=where(fm))
+
+    # ---- R18.7 one result, one run-info file, one log file
+    from ..terms import dag_nodes as _dag, pretty as _pretty
+    R.rule('R18.7', 'run-info and log file names are a one-to-one function of the result\'s file name (stem / name / with_suffix - never a truncated name)', floor=2)
+    datac = A.cls('Data')
+    for prop_ in ('run_info_path', 'log_path'):
+        fp_ = datac.lookup(prop_)
+        R.require(fp_ is not None, f'anchor: Data.{prop_} missing')
+        t_ = A.sym.func_term(fp_, ('inst', datac))
+        nodes_ = _dag(t_)
+        lossy = [x for x in nodes_ if (x[0] == 'index' and x[1][0] == 'method' and x[1][2] in ('split', 'rsplit', 'partition', 'rpartition') and x[2] == ('lit', 0) and x[1][2] in ('split', 'partition'))
+                 or x[0] == 'slice']
+        keeps = [x for x in nodes_ if (x[0] == 'attr' and x[2] in ('stem', 'name')) or (x[0] == 'method' and x[2] in ('with_suffix', 'with_name'))]
+        if not lossy and not keeps:
+            R.undecided('R18.7', f'Data.{prop_}', f'how the side file is named is not recognised: {_pretty(t_)[:120]}', where=where(fp_))
+        else:
+            R.check(not lossy, 'R18.7', f'Data.{prop_}', key_of('sidecar-name', prop_, [_pretty(x)[:60] for x in lossy]), 'named by the whole result name',
+                    f'the side file is named by `{_pretty(lossy[0])[:80] if lossy else ""}`: results whose names share the part before the first dot (config names model.v1 / model.v2 in name mode) share one run-info / log file, '
+                    'so the record of one run is overwritten by another task\'s run', where=where(fp_))
+
